@@ -290,7 +290,7 @@ PROPS["C11"] = {
     "caps_by_harness": [("_t_umad_", (1500, 14))],
     "weight_by_harness": [("_t_umad_", 2)],
     "functions": _MUT_FUNCS[:3] + ["MIR engine bin/mirumad (z3): Umad::{new,new_with_empty_rate,new_without_empty}, <Umad as Mutator<G>>::mutate, its closures, Umad::new_gene"],
-    "mirumad": {"quick": 4, "thorough": 6, "labels": ["U1", "U2", "U3"]},
+    "mirumad": {"quick": 4, "thorough": 6, "labels": ["U1", "U2", "U3", "U5"]},
     "bounds": {
         "quick": "every random stream; bit-flip (Vec<bool> and Bitstring flavours) on genomes of length 0,1,3 / 0,2,4 with symbolic genes and a symbolic f32 rate in [0,2]: "
                  "length preserved, one draw per gene, rate 0 identity, rate >= 1 everything flipped; UMAD on Vector<u8> with position-tagged parents of length 0,1,2, "
@@ -303,9 +303,9 @@ PROPS["C11"] = {
                     "bin/mirumad: rustc MIR is the semantics of the source; callee models: Rng::random_bool(p) = true with probability p, Distribution::sample = a fresh gene, into_iter/flat_map/flatten/collect = the closure's MIR once per gene in order, bool::then/then_some, Option::into_iter().collect(), Linear::size; unknown statements / callees are inconclusive (exit 2)"],
 }
 PROPS["C12"] = {
-    "features": ["c11"],
-    "modules": ["c11_mutation::"],
-    "name_filter": "^c12_",
+    "features": ["c11", "c10"],
+    "modules": ["c11_mutation::", "c10_xo::"],
+    "name_filter": "^(c12_|c10_uniform_)",      # uniform crossover's coin per position: the C10 harnesses decide it, they run here too
     "unwind_by_harness": [("umad_l1", 4), ("umad_l2", 5)],
     "caps_by_harness": [("_t_umad_", (1500, 14))],
     "weight_by_harness": [("_t_umad_", 2)],
@@ -315,7 +315,7 @@ PROPS["C12"] = {
         "quick": "measure characterisation, for ALL random words and a SYMBOLIC rate: WithRate flips gene i iff (w_i >> 8) < ceil(rate*2^24) (its own word only; probability within 2^-24 of the rate), "
                  "lengths 0..=4; WithOneOverLength the same with rate 1/L and L*threshold = 2^24 +- L (one expected flip); UMAD child == reference built from the same words (add coin, delete coin, "
                  "delete-new coin only after an addition, generator call only for surviving additions: new genes are subject to deletion with the deletion rate) on empty parents (quick) and "
-                 "one-gene parents with rates from {0,1/2,1} (thorough); coin(p) = word < floor(p*2^64), p = 1 without a draw; uniform crossover is decided under C10 (top bit of word i); Bitstring::random "
+                 "one-gene parents with rates from {0,1/2,1} (thorough); coin(p) = word < floor(p*2^64), p = 1 without a draw; uniform crossover: the c10_uniform_* harnesses (run by this check too): gene i comes from the parent chosen by the top bit of random word i, lengths 0..=4, all four parent shapes; Bitstring::random "
                  "bit i = top bit of word i; random_with_probability / BoolGenerator = coin(p) with symbolic p; Plushy gene: close iff (w >> 8) < ceil(p*2^24) else exactly one sample of the "
                  "instruction distribution, default p = 1/(n+1) for a symbolic n <= 2^24. MIR engine (z3, nonlinear real arithmetic): Umad::mutate and the three constructors executed from MIR on parents of L <= 4 tagged genes with SYMBOLIC REAL rates a, d, e in [0,1] (random_bool(p) = fork weighted p / 1-p, path probability = product): child structure (U1), the exact sequence of draws (U3), the probability of EVERY possible child equals the prescribed law for all rates (U2: each gene deleted with probability d and followed by a new gene with probability a(1-d), independently; empty parent: e, = a for `new`, none without empty rate), and expected size preserved under d(1+a) = a (U4)",
         "thorough": "as quick plus the thorough bit-flip lengths and UMAD on one-gene parents, 4 rate pairs. MIR engine (z3, nonlinear real arithmetic): Umad::mutate and the three constructors executed from MIR on parents of L <= 6 tagged genes with SYMBOLIC REAL rates a, d, e in [0,1] (random_bool(p) = fork weighted p / 1-p, path probability = product): child structure (U1), the exact sequence of draws (U3), the probability of EVERY possible child equals the prescribed law for all rates (U2: each gene deleted with probability d and followed by a new gene with probability a(1-d), independently; empty parent: e, = a for `new`, none without empty rate), and expected size preserved under d(1+a) = a (U4)",
@@ -391,6 +391,7 @@ PROPS["C16"] = {
     "mirinput": {"quick": 4, "thorough": 5},
     "mirlex": "hidden",
     "mirlex_labels": ["X6"],
+    "mirumad": {"quick": 3, "thorough": 4, "labels": ["U5"]},
     "bounds": {
         "quick": "self-composition: each operation is run twice from two clones of ONE symbolic 6-word tape (then all-ones): equal results (identity for selectors) and equal generator "
                  "states (cursor and per-entry-point call counters); and twice on one operator value vs on fresh values (no hidden state); populations / genomes of 3 symbolic "
@@ -398,7 +399,7 @@ PROPS["C16"] = {
         "thorough": "same Kani harnesses; MIR engine (z3): N <= 5 declared inputs (pairwise distinct SYMBOLIC names = strings of 1..=2 alphanumeric ASCII bytes with symbolic length and bytes, symbolic values, int/bool/float mixes) bound through the generated builder methods, build(), then one with_input of a SYMBOLIC name (equal to any declared name or to none) under EVERY iteration order of the hash map (n! orders, fork per order): exactly the instruction bound to the queried name is performed; an undeclared name reaches the documented panic",
     },
     "outside": "hash-map iteration order anywhere else than the input lookup (none found: input_instructions is the only HashMap in the library crates); more than one lookup per state (the map is never modified by a lookup); Generation::serial_next / par_next (rand::rng(): see C09); "
-               "the lexicase LAW with >= 2 cases (C08; its independence of earlier calls IS decided here: MIR engine bin/mirlex, X6 - a second call on the same operator value hands the case-order shuffle the same input as the first, populations of 2 and 3 with 2 cases), Plushy parsing (C05), UMAD on non-empty parents (solver budget, see C11); Push run_to_completion determinism beyond single steps "
+               "the lexicase LAW with >= 2 cases (C08; its independence of earlier calls IS decided here: MIR engine bin/mirlex, X6 - a second call on the same operator value hands the case-order shuffle the same input as the first, populations of 2 and 3 with 2 cases), Plushy parsing (C05), UMAD under Kani on non-empty parents (solver budget, see C11) - on the MIR (bin/mirumad, U5) every draw of Umad::mutate is shown to come from the supplied generator, parents of <= 3 genes; Push run_to_completion determinism beyond single steps "
                "(single steps are functional by the C01 STEP lemma); streams longer than 6 words. A library function reaching thread-local / OS randomness is not a failed "
                "assertion here but a harness that no longer compiles or links under Kani (reported as inconclusive, exit 2)",
     "assumptions": ["TapeRng models 'equal generator states': same tape, same cursor, same call counters", "bin/mirinput: rustc MIR (nightly, -Zunpretty=mir) is the semantics of the source; callee models (not executed): HashMap::insert = finite map, HashMap::iter = any order of the entries, Iterator::find_map = call the closure per entry in that order, <Arc<str> as PartialEq>::eq = same length and same bytes (z3), str::bytes / zip / all / len / eq_ignore_ascii_case on the same symbolic bytes, bool::then_some, Option::unwrap_or_else, Clone of PushInstruction = identity, Instruction::perform recorded (its effect is C01); an unknown statement or callee makes the run inconclusive (exit 2), never a pass"],
